@@ -64,6 +64,22 @@ def defines(m, reads, writes):
     emit(f"define readCount(self *{m}, r RegisterType) = {cnt(reads)}")
     emit(f"define writeCount(self *{m}, r RegisterType) = {cnt(writes)}")
     emit(f"define insType(self *{m}) = {TYPE[m]}")
+    nread = {'lb':1,'lh':2,'lw':4}.get(m, 0)
+    emit(f"define memReadCount(self *{m}) = {nread}")
+    reads_regs = bool(reads)
+    zero = "wfZero(ctx, self.forward)" if (reads_regs and m not in NOFWD) else "true"
+    if m in ('lb','lh','lw'):
+        emit(f"define runPre(self *{m}, ctx *Context, memory []int8) = ctx != nil && len(memory) >= {nread}")
+        emit(f"define readPre(self *{m}, ctx *Context) = wfZero(ctx, self.forward)")
+    elif m == 'jal':
+        emit(f"define runPre(self *{m}, ctx *Context, memory []int8) = ctx != nil")
+        emit(f"define readPre(self *{m}, ctx *Context) = true")
+    elif m == 'jalr':
+        emit(f"define runPre(self *{m}, ctx *Context, memory []int8) = wfZero(ctx, self.forward) && ((registerRead(ctx, self.forward, self.rs, 0) + self.imm) & 1) == 0")
+        emit(f"define readPre(self *{m}, ctx *Context) = true")
+    else:
+        emit(f"define runPre(self *{m}, ctx *Context, memory []int8) = {zero}")
+        emit(f"define readPre(self *{m}, ctx *Context) = true")
 
 def sets(m, reads, writes):
     defines(m, reads, writes)
